@@ -359,6 +359,7 @@ struct C17 : Scenario {
          if (k1.e == nullptr or k2.e == nullptr) continue;
          if (w1.print_weight(w1.order[i]) > unfolded_limit) { ctx.probe(Q_too_large); continue; }
          if (ctx.verbose) std::printf("node#%zu %s unfolded size estimate %.0f\n", i, category_name(rc1.exp.cat), w1.print_weight(w1.order[i]));
+         if (const char* ex = ctx.verbose ? std::getenv("VERIF_EXPLAIN_WEIGHT") : nullptr; ex != nullptr and std::strtoull(ex, nullptr, 10) == i) { w1.explain_weights = true; w1.print_weight(w1.order[i]); w1.explain_weights = false; }
          ctx.probe(Q_nodes_printed);
          ctx.relevant = true;
          if (k1.d) { if (Verdict v = compare("decl", i, [&](ipr::Printer& pp) { pp << ipr::xpr_decl(*k1.d, true); }, [&](ipr::Printer& pp) { pp << ipr::xpr_decl(*k2.d, true); }); not v) return v; }
